@@ -38,7 +38,7 @@ Step ==
        ELSE
        CASE Op.op = "add_local" ->
               /\ Chk("local_index", Op.ret = AddLocalRet(E, Op.f), [want |-> AddLocalRet(E, Op.f), got |-> Op.ret, via |-> Op.via])
-              /\ E' = AddLocal(E, Op.f, Op.ty)
+              /\ E' = IF Op.via = "modifier_many" THEN AddLocals3(E, Op.f, Op.ty) ELSE AddLocal(E, Op.f, Op.ty)
          [] Op.op = "build" ->
               /\ Chk("builder_local_index", Op.ret.lids = BuiltLocalIds(Op), [want |-> BuiltLocalIds(Op), got |-> Op.ret.lids])
               /\ E' = [AddType(E, Op.req) EXCEPT !.funcs = Append(@, [f |-> BuiltFunc(Op), export |-> Op.ret.export, via |-> Op.via]),
